@@ -147,4 +147,103 @@ example : MetadataExprParser.parse {} ['%', Char.ofNat 0x661, '.', 'x'] = .ok (s
 example : MetadataExprParser.parse {} ['%', Char.ofNat 0x1c, '1', '.', 'x'] = .error (.raised "MetadataExprParsingError") ∧
     parse ['%', Char.ofNat 0x1c, '1', '.', 'x'] = .error .mdExpr := by decide
 
+/-! ### `MetadataQuerent.query` (regenerated into `Gen/PyMdquery.lean`) -/
+
+/-- the abstract view (`Message` / `Section` / `Parameter` of the translator specification) of the model's decoded
+    sections, for an encoding `enc` of the parameter values, which the code only hands on -/
+def sectionToPy (enc : PVal → Py.Obj) (s : DecSection) : Section :=
+  ⟨(s.index : Int), s.params.map fun nv => ⟨nv.1.toList, enc nv.2⟩⟩
+
+def messageToPy (enc : PVal → Py.Obj) (secs : List DecSection) : Message := ⟨secs.map (sectionToPy enc)⟩
+
+theorem ofList_eq_iff (name : List Char) (n : String) : String.ofList name = n ↔ n.toList = name := by
+  constructor
+  · intro h; rw [← h]; simp
+  · intro h; rw [← h]; simp
+
+/-- the inner loop: the first parameter of that name -/
+theorem find_param (enc : PVal → Py.Obj) (name : List Char) (params : List (String × PVal)) :
+    List.findSome? (fun (y2 : Parameter) => if decide (y2.name = name) then some (some y2.value) else none)
+        (params.map fun nv => (⟨nv.1.toList, enc nv.2⟩ : Parameter)) =
+      (params.lookup (String.ofList name)).map fun v => some (enc v) := by
+  induction params with
+  | nil => rfl
+  | cons nv rest ih =>
+    obtain ⟨n, v⟩ := nv
+    simp only [List.map_cons, List.findSome?_cons, List.lookup_cons]
+    by_cases h : n.toList = name
+    · have h' : (String.ofList name == n) = true := by simp [(ofList_eq_iff name n).mpr h]
+      simp [h, h']
+    · have h' : (String.ofList name == n) = false := by
+        simp only [beq_eq_false_iff_ne, ne_eq]
+        exact fun e => h ((ofList_eq_iff name n).mp e)
+      simp only [h, h', decide_false, Bool.false_eq_true, if_false]
+      exact ih
+
+/-- the selection of the sections and the outer loop -/
+theorem find_section (enc : PVal → Py.Obj) (sec : Option Int) (name : List Char) (secs : List DecSection) :
+    Option.getD (List.findSome? (fun (y1 : Section) =>
+        List.findSome? (fun (y2 : Parameter) => if decide (y2.name = name) then some (some y2.value) else none) y1.params)
+      (List.filterMap (fun (p : Section) => if (decide (some p.index = sec) || Option.isNone sec) then some p else none)
+        (secs.map (sectionToPy enc)))) none =
+    (lookup secs ⟨sec, name⟩).map enc := by
+  unfold lookup
+  induction secs with
+  | nil => rfl
+  | cons s rest ih =>
+    have hsel : (decide (some (sectionToPy enc s).index = sec) || Option.isNone sec) = selects sec s := by
+      cases sec with
+      | none => simp [selects]
+      | some k =>
+        simp [selects, sectionToPy]
+        by_cases hk : (s.index : Int) = k <;> simp [hk]
+    simp only [List.map_cons, List.filterMap_cons, hsel]
+    by_cases hs : selects sec s = true
+    · simp only [hs, if_true, List.filter_cons, List.map_cons, List.findSome?_cons, DecSection.param?]
+      have := find_param enc name s.params
+      simp only [sectionToPy] at this ⊢
+      rw [this]
+      cases s.params.lookup (String.ofList name) with
+      | none => simpa [DecSection.param?] using ih
+      | some v => simp
+    · simp only [hs, Bool.false_eq_true, if_false, List.filter_cons]
+      exact ih
+
+/-- **`MetadataQuerent.query` as translated from the source is the model's `query`**: on the sections of the model
+    (each seen as its `index` and its parameters in order; the parameter values pass through an arbitrary encoding
+    `enc`, the code only hands them on) and for every expression of the domain of `C17_src_parse`: the exception of
+    `parse`, or the value of the first parameter of that name in the first selected section that has one, `None`
+    when there is none. -/
+theorem C17_src_query_eq (enc : PVal → Py.Obj) (secs : List DecSection) (e : List Char)
+    (hd : AsciiDigitsOnly e) (hl : e.length ≤ 4300) :
+    MetadataQuerent.query {} (messageToPy enc secs) e =
+      match parseExact e with
+      | .error x => .error x
+      | .ok (sec, name) => .ok ((lookup secs ⟨sec, name⟩).map enc) := by
+  unfold MetadataQuerent.query
+  simp only [C17_src_parse_exact e hd hl, bind, Except.bind, pure, Except.pure]
+  cases parseExact e with
+  | error x => rfl
+  | ok r =>
+    obtain ⟨sec, name⟩ := r
+    simp only [messageToPy]
+    rw [find_section]
+
+/-- the same in the vocabulary of the model -/
+theorem C17_src_query_eq_model (enc : PVal → Py.Obj) (secs : List DecSection) (e : List Char)
+    (hd : AsciiDigitsOnly e) (hl : e.length ≤ 4300) :
+    (match MetadataQuerent.query {} (messageToPy enc secs) e with
+      | .ok r => (.ok r : Except Err (Option Py.Obj))
+      | .error x => .error (excToErr x)) =
+    match query secs e with
+      | .ok r => .ok (r.map enc)
+      | .error x => .error x := by
+  rw [C17_src_query_eq enc secs e hd hl, query, ← ofGen_parseExact]
+  cases parseExact e with
+  | error x => rfl
+  | ok r => rfl
+
+example : MetadataQuerent.query {} (messageToPy (fun _ => ⟨7⟩)
+      [{ index := 1, params := [("edition", .int 4)], nbits := 8 }]) "%1.edition".toList = .ok (some ⟨7⟩) := by decide
+
 end Bufr.MdQuery
